@@ -23,6 +23,8 @@ PY = "/venv/bin/python"
 def run_one(sid, tier, confirm, props):
     d = os.path.join(HERE, "seeded", sid)
     meta = json.load(open(os.path.join(d, "meta.json")))
+    if meta.get("obsolete"):
+        return sid, "obsolete", {"why": meta["obsolete"][:120]}
     tmp = tempfile.mkdtemp(prefix="vseed_")
     res = {}
     try:
@@ -78,8 +80,9 @@ def main():
             out[sid] = status
             print("%-28s %-8s %s" % (sid, status, json.dumps(res)[:700]))
             sys.stdout.flush()
-    missed = [k for k, v in out.items() if v != "caught"]
-    print("caught %d / %d; not caught: %s" % (len(out) - len(missed), len(out), missed))
+    obsolete = [k for k, v in out.items() if v == "obsolete"]
+    missed = [k for k, v in out.items() if v not in ("caught", "obsolete")]
+    print("caught %d / %d; not caught: %s; obsolete (neutralised by a later repair): %s" % (len(out) - len(missed) - len(obsolete), len(out) - len(obsolete), missed, obsolete))
     return 1 if missed else 0
 
 
